@@ -29,6 +29,11 @@ struct Case {
 	extra: u8,
 	forced: bool,
 	overwrite: bool,
+	/// salt in the destination options: 0 = the source's, 1 = none, 2 = another one (migration must keep the source's:
+	/// keys are carried over already hashed, unselected columns are copied as files)
+	dst_salt: u8,
+	/// source with uniform keys and the zero salt (identity hashing: the content set chooses index pages)
+	uniform: bool,
 }
 
 fn variants() -> Vec<ColSpec> {
@@ -47,6 +52,13 @@ fn content(c: u8, rc: bool) -> Vec<Tx> {
 		0 => vec![],
 		1 => vec![vec![set(1, 10), set(2, 33), set(3, 5)]],
 		2 => vec![vec![set(1, 10), set(2, 300), set(3, 6000)], vec![set(4, 40000), set(5, 1)]],
+		5 => {
+			// three keys of one index page (uniform keys, zero salt), the one inserted first removed again: a hole in
+			// front of two live entries of the source index page
+			let pk = |i: u8| crate::props::c09::page_key(0x4242, i);
+			let s = |i: u8, len: u32| (0u8, Op::Set(pk(i), fv(&pk(i), len)));
+			vec![vec![s(1, 10)], vec![s(2, 33), s(3, 5)], vec![(0u8, Op::Del(pk(1)))]]
+		},
 		3 => {
 			// reference counts 1..3 (on a counting source); plain sets otherwise
 			let mut t = vec![vec![set(1, 20), set(2, 40), set(3, 6000)]];
@@ -115,12 +127,18 @@ fn run_case(c: &Case) -> Result<(), Fail> {
 	std::fs::create_dir_all(&base).unwrap();
 	let mut cols = vec![c.src.clone()];
 	cols.extend(extra_cols(c.extra));
-	let src_cfg = Config::new(cols.clone());
+	let mut src_cfg = Config::new(cols.clone());
+	if c.uniform {
+		src_cfg.salt = 0;
+	}
 	let mut txs = content(c.content, c.src.ref_counted);
 	txs.extend(extra_content(c.extra));
 	let mut probe: Vec<(u8, B)> = (1..=6).map(|i| (0u8, mk(i))).collect();
 	if c.content == 4 {
 		probe.extend((1000..4500).map(|i| (0u8, mk(i))));
+	}
+	if c.content == 5 {
+		probe.extend((1..=3u8).map(|i| (0u8, crate::props::c09::page_key(0x4242, i))));
 	}
 	let universe = universe_of(&src_cfg, &txs, &probe);
 	let mut ex = Exec::new(&from, &src_cfg, universe.clone())?;
@@ -134,8 +152,14 @@ fn run_case(c: &Case) -> Result<(), Fail> {
 	// destination options
 	let mut dcols = cols.clone();
 	dcols[0] = c.dst.clone();
-	let dst_cfg = Config::new(dcols.clone());
-	let to_opts = dst_cfg.options(&to);
+	let mut dst_cfg = Config::new(dcols.clone());
+	dst_cfg.salt = src_cfg.salt;
+	let mut to_opts = dst_cfg.options(&to);
+	match c.dst_salt {
+		1 => to_opts.salt = None,
+		2 => to_opts.salt = Some([0x5c; 32]),
+		_ => (),
+	}
 	let forced: Vec<u8> = if c.forced { vec![0] } else { vec![] };
 	let r = std::panic::catch_unwind(std::panic::AssertUnwindSafe(|| parity_db::migrate(&from, to_opts, c.overwrite, &forced)));
 	match r {
@@ -208,7 +232,13 @@ fn cases(tier: &str) -> Vec<Case> {
 							if !full && ((content + extra + forced as u8 + overwrite as u8 + src.compression + dst.compression) % 3 != 0) {
 								continue
 							}
-							v.push(Case { src: src.clone(), dst: dst.clone(), content, extra, forced, overwrite });
+							// destination salt: the source's in most cases; none / another one in a rotating third each
+							let dst_salt = if full { 3 } else { (content + extra + overwrite as u8 + src.compression * 2 + dst.compression + src.preimage as u8) % 3 };
+							for ds in 0..3u8 {
+								if dst_salt == 3 || ds == dst_salt {
+									v.push(Case { src: src.clone(), dst: dst.clone(), content, extra, forced, overwrite, dst_salt: ds, uniform: false });
+								}
+							}
 						}
 					}
 				}
@@ -218,10 +248,17 @@ fn cases(tier: &str) -> Vec<Case> {
 	// several migration batches
 	let rc = ColSpec::rc();
 	let rc_lz4 = ColSpec { compression: 1, ..ColSpec::rc() };
-	v.push(Case { src: rc.clone(), dst: rc_lz4.clone(), content: 4, extra: 0, forced: false, overwrite: false });
+	v.push(Case { src: rc.clone(), dst: rc_lz4.clone(), content: 4, extra: 0, forced: false, overwrite: false, dst_salt: 0, uniform: false });
+	// a source index page with a hole in front of live entries (uniform keys)
+	let uni = ColSpec { uniform: true, ..ColSpec::hash() };
+	let uni_lz4 = ColSpec { uniform: true, compression: 1, ..ColSpec::hash() };
+	for overwrite in [false, true] {
+		v.push(Case { src: uni.clone(), dst: uni_lz4.clone(), content: 5, extra: 0, forced: false, overwrite, dst_salt: 0, uniform: true });
+		v.push(Case { src: uni.clone(), dst: uni.clone(), content: 5, extra: 2, forced: true, overwrite, dst_salt: 1, uniform: true });
+	}
 	if tier == "thorough" {
-		v.push(Case { src: rc_lz4.clone(), dst: ColSpec::hash(), content: 4, extra: 2, forced: false, overwrite: true });
-		v.push(Case { src: ColSpec::hash(), dst: rc, content: 4, extra: 0, forced: true, overwrite: false });
+		v.push(Case { src: rc_lz4.clone(), dst: ColSpec::hash(), content: 4, extra: 2, forced: false, overwrite: true, dst_salt: 0, uniform: false });
+		v.push(Case { src: ColSpec::hash(), dst: rc, content: 4, extra: 0, forced: true, overwrite: false, dst_salt: 0, uniform: false });
 	}
 	v
 }
@@ -241,7 +278,7 @@ pub fn run(tier: &str) -> ! {
 	let mut reported: BTreeMap<String, ()> = BTreeMap::new();
 	for (i, it) in items.into_iter().enumerate() {
 		let c = &cs[i];
-		let describe = format!("source {} -> destination {}, content set {}, {} unselected columns, {} selection, overwrite={}", c.src.short(), c.dst.short(), c.content, c.extra, if c.forced { "forced" } else { "automatic" }, c.overwrite);
+		let describe = format!("source {} -> destination {}, content set {}, {} unselected columns, {} selection, overwrite={}, destination salt {}", c.src.short(), c.dst.short(), c.content, c.extra, if c.forced { "forced" } else { "automatic" }, c.overwrite, ["as the source's", "not given", "another one"][c.dst_salt as usize % 3]);
 		match it {
 			Item::Done(b) => {
 				let j: serde_json::Value = serde_json::from_slice(&b).unwrap();
@@ -266,7 +303,7 @@ pub fn run(tier: &str) -> ! {
 	cleanup_scratch();
 	run.set("evaluations", json!(cs.len() as u64));
 	run.set("distinct_nontrivial", json!(ok));
-	run.set("rule", json!(format!("{} of the product: source options x destination options over {{plain, preimage, ref-counted}} x {{none, lz4, snappy}} (hashed keys) x {{automatic, forced}} selection x overwrite {{false, true}} x content sets {{empty; 3 small; three size classes + a 40 kB chained value + a 1-byte value; reference counts 1..3}} (plus 3500 keys with count 3 = more than one 10240-operation migration batch, for selected option pairs) x {{no other column; an unselected btree column and an unselected multitree column holding two trees that share a node}}. After migrate returns: the result (destination, or the source directory when overwriting) opened with the destination options returns every source key with its value (and count where the destination counts), value iteration shows no extra entry, the unselected columns read back equal (trees walked) and dereferencing one of the two sharing trees keeps the shared node; without overwrite the source still holds its content", if tier == "thorough" { "all".to_string() } else { "a covering third".to_string() })));
+	run.set("rule", json!(format!("{} of the product: source options x destination options over {{plain, preimage, ref-counted}} x {{none, lz4, snappy}} (hashed keys) x {{automatic, forced}} selection x overwrite {{false, true}} x content sets {{empty; 3 small; three size classes + a 40 kB chained value + a 1-byte value; reference counts 1..3}} x destination salt {{the source's, none, another one}} (plus a uniform-key source whose index page has a hole in front of two live entries; plus 3500 keys with count 3 = more than one 10240-operation migration batch, for selected option pairs) x {{no other column; an unselected btree column and an unselected multitree column holding two trees that share a node}}. After migrate returns: the result (destination, or the source directory when overwriting) opened with the destination options returns every source key with its value (and count where the destination counts), value iteration shows no extra entry, the unselected columns read back equal (trees walked) and dereferencing one of the two sharing trees keeps the shared node; without overwrite the source still holds its content", if tier == "thorough" { "all".to_string() } else { "a covering third".to_string() })));
 	run.sample(json!({"source": "hash+preimage+rc+lz4", "destination": "hash", "content": "counts 1..3", "selection": "automatic", "overwrite": false}));
 	run.assumptions = vec![
 		"migrate() opens both databases with real background threads: only outcomes after it has returned (handles dropped) are judged".into(),
